@@ -180,8 +180,11 @@ class C16(PropBase):
             if kind in ('rx', 'both'):
                 a['rx_only'] = True
             if rng.random() < 0.1 and mode in (2, 6):
-                a['physical_id'] = rng.randrange(1 << 29)
-                a['functional_id'] = rng.randrange(1 << 29)
+                r = rng.random()
+                if r < 0.75:
+                    a['physical_id'] = rng.randrange(1 << 29)
+                if r > 0.25:
+                    a['functional_id'] = rng.randrange(1 << 29)
             ops.append({'op': 'addr', 'k': k, 'addr': a})
             metas.append(a)
         # asymmetric constructions through the layer op
@@ -228,7 +231,46 @@ class C16(PropBase):
             ops.append(op)
         return {'ops': ops, 'meta': {'family': 'params'}}
 
+    def live_reconfig_scenario(self, rng):
+        """a transfer is under way (First Frame out, Flow Control not yet in) when a documented-valid value is given through params.set(),
+        or another valid address through set_address(): whatever is accepted must leave a layer that can still be driven (judge-only)"""
+        a, _ = gen.rand_addr_pair(rng)
+        txdl = rng.choice([8, 8, 12, 16, 24, 32, 48, 64])
+        params = {'tx_data_length': txdl, 'blocksize': rng.choice([0, 2, 8]), 'stmin': 0}
+        if rng.random() < 0.3:
+            params['tx_padding'] = rng.choice([0, 0xAA])
+        ops = [{'op': 'layer', 'i': 0, 'addr': a, 'params': params}]
+        pre = gen.prefix_len(a, 'tx')
+        n = rng.choice([txdl - pre, txdl + 5, 3 * txdl, 5 * txdl + 1, 200])
+        ops.append({'op': 'send', 'i': 0, 'id': 1, 'data': gen.rand_payload(rng, n)})
+        ops.append({'op': 'process', 'i': 0})
+        rx_addr = a
+        cur = dict(params)
+        for _ in range(rng.choice([1, 1, 2])):
+            if rng.random() < 0.35:
+                b, _ = gen.rand_addr_pair(rng)
+                ops.append({'op': 'set_address', 'i': 0, 'addr': b})
+                rx_addr = b
+            else:
+                k = rng.choice(['tx_data_length', 'tx_data_length', 'tx_data_min_length', 'tx_padding', 'blocksize', 'max_frame_size', 'stmin'])
+                v = rng.choice([x for x in PARAM_VALS[k] if not isinstance(x, (str, float)) or x is None])
+                try:
+                    ok = doc_param_verdict(dict(cur, **{k: v})) == 'accept' and not (isinstance(v, int) and abs(v) > 10**12)
+                except Exception:
+                    ok = False
+                if ok:
+                    cur[k] = v
+                    ops.append({'op': 'paramset', 'i': 0, 'key': k, 'value': v})
+        for _ in range(rng.choice([1, 2, 3])):
+            fid, ext, data = gen.rx_match_frame(rx_addr, bytes([0x30, rng.choice([0, 0, 1, 3]), 0]))
+            ops.append({'op': 'frame', 'i': 0, 'id': fid, 'ext': ext, 'data': data, 'dt': 0})
+            for _ in range(rng.choice([1, 3, 6])):
+                ops.append({'op': 'process', 'i': 0})
+        return {'ops': ops, 'meta': {'family': 'operable'}, 'no_model': True}
+
     def operable_scenario(self, rng):
+        if rng.random() < 0.15:
+            return self.live_reconfig_scenario(rng)
         sc = gen.chaos_single(rng, 25)
         params = sc[0]['params']
         if rng.random() < 0.3:
@@ -272,6 +314,11 @@ class C16(PropBase):
                     ins.append({'op': 'paramset', 'i': 0, 'key': k, 'value': v})
             if ins:
                 return {'ops': sc[:1] + ins + sc[1:], 'meta': {'family': 'operable'}, 'no_model': True}
+        if rng.random() < 0.5 and len(params) > 1:
+            # the constructor receives a dict: the verdict is about the whole set, whatever order the keys come in
+            ks = list(params)
+            rng.shuffle(ks)
+            sc[0]['params'] = {k: params[k] for k in ks}
         return {'ops': sc, 'meta': {'family': 'operable'}}
 
     def project(self, op_line, out_line):
@@ -313,6 +360,13 @@ class C16(PropBase):
             if impl_out and impl_out[0].startswith('exc'):
                 if impl_out[0] != 'exc ValueError':
                     out.append(('operable', 'construction raised %s instead of ValueError' % impl_out[0]))
+                else:
+                    try:
+                        v = doc_param_verdict(sc['ops'][0]['params'])
+                    except Exception:
+                        v = 'either'
+                    if v == 'accept':
+                        out.append(('params_iff', 'the constructor refused params that are valid per the documentation (key order %s)' % list(sc['ops'][0]['params'])))
                 return out
             for r in trace.records(lines_in, impl_out):
                 if r.op == 'process' and r.result.startswith('exc'):
